@@ -106,6 +106,9 @@ void harness (void)
     VH_IN (vh_u32, in_a);
     VH_IN (vh_u32, in_b);
     VH_ASSUME (in_b != 0);
+#ifdef VC_BMAX
+    VH_ASSUME (in_b <= VC_BMAX);    /* bounded quick-tier variant (lead): small divisor, every a */
+#endif
     {
         pixman_bool_t r = _pixman_multiply_overflows_int (in_a, in_b);
         VH_CHECK ("overflows_int.mul.false_implies_product_fits_int", r || (vh_u64) in_a * in_b <= (vh_u64) INT32_MAX);
